@@ -383,6 +383,61 @@ def twin_objects(ctx, sut, serial, default, spelling, plain_first):
         ctx.count("twins.default_stays")
 
 
+def annotation_key_literals(ctx, sut, serial):
+    """Defaults are JSON values - any member name may occur in them, also the one the title labeller uses
+    for its own annotation."""
+    for lit in ({"_x_autotitle": "x", "a": 1}, [{"_x_autotitle": 1}], {"a": {"_x_autotitle": None, "b": 2}}):
+        ctx.evaluation()
+        ctx.count("annotation_key_literals")
+        schema = {"type": "object", "title": f"Lit{serial}", "properties": {"p": {"default": copy.deepcopy(lit)}}}
+        try:
+            element = sut.parse_direct(copy.deepcopy(schema))
+            got = element.properties["p"].element.default
+        except Exception as exc:  # pylint: disable=broad-except
+            ctx.witness("parse_or_locate_failed", {"shape": "annotation_key", "schema": schema}, repr(exc)[:200])
+            continue
+        if not same(got, lit):
+            ctx.witness("default_altered", {"shape": "annotation_key", "schema": schema},
+                        f"default {lit!r} parsed as {got!r}", finding="F43")
+        else:
+            ctx.count("annotation_key_literals.kept")
+
+
+def nested_defaults(ctx, sut, serial):
+    """A composition branch and the schema around it both declare a default."""
+    for key in ("allOf", "anyOf", "oneOf"):
+        for branches in ([{"type": "string", "default": "inner"}],
+                         [{"type": "string", "default": "inner"}, {"type": "integer"}]):
+            schema = {key: copy.deepcopy(branches), "default": "outer"}
+            ctx.evaluation()
+            ctx.count("nested_defaults")
+            try:
+                element = sut.parse_direct({"type": "object", "title": f"Nest{serial}", "properties": {"p": schema}}
+                                           ).properties["p"].element
+            except Exception as exc:  # pylint: disable=broad-except
+                ctx.witness("parse_or_locate_failed", {"shape": "nested_defaults", "schema": schema}, repr(exc)[:200])
+                continue
+            outer = getattr(element, "default", sut.NotPassed())
+            inner_elements = [el for el in [element] + list(sut.get_children(element)) if isinstance(el, sut.String)]
+            inner = getattr(inner_elements[0], "default", sut.NotPassed()) if inner_elements else sut.NotPassed()
+            problems = []
+            if isinstance(outer, sut.NotPassed) or outer != "outer":
+                problems.append(f"the outer schema's default is {outer!r}")
+            if len(branches) > 1 and (isinstance(inner, sut.NotPassed) or inner != "inner"):
+                problems.append(f"the branch's own default is {inner!r}")
+            single_lost = len(branches) == 1 and inner_elements and inner_elements[0] is element and inner != "inner"
+            if problems:
+                ctx.witness("default_moved_between_nested_schemas", {"shape": "nested_defaults", "schema": schema},
+                            "; ".join(problems))
+            elif single_lost:
+                # the composition reduced to its only branch: ONE element for two schemas, holding the outer
+                # default - the branch's own default is gone (known finding F44)
+                ctx.witness("default_moved_between_nested_schemas", {"shape": "nested_defaults", "schema": schema},
+                            f"the branch declared 'inner' but its element carries {inner!r}", finding="F44")
+            else:
+                ctx.count("nested_defaults.both_kept")
+
+
 def description_case(ctx, sut, text, serial, hostile):
     doc = {"type": "object", "title": f"Desc{serial}", "description": text,
            "properties": {"child": {"type": "object", "title": f"Inner{serial}", "description": text[::-1]}}}
@@ -485,6 +540,10 @@ def run_shard(ctx):
                 if (idx * 4 + (spelling == "list") * 2 + plain_first) % ctx.nshards == ctx.shard:
                     serial += 1
                     twin_objects(ctx, sut, serial, default, spelling, plain_first)
+    if ctx.shard == 0:
+        serial += 1
+        annotation_key_literals(ctx, sut, serial)
+        nested_defaults(ctx, sut, serial)
     pool = gen_docs.DESCRIPTIONS_PLAIN + gen_docs.DESCRIPTIONS_HOSTILE
     for idx, text in enumerate(pool):
         if idx % ctx.nshards == ctx.shard:
